@@ -337,15 +337,36 @@ pub fn truncate(ctx: &mut Ctx) {
     let n_arch = if ctx.thorough { 60 } else { 6 };
     for ai in 0..n_arch {
         let big = ai % 3 == 2;
-        let (full, desc, _) = gen::gen_archive(&mut rng, if big { 5 } else { 2 }, if big { 600 } else { 24 });
+        // one archive per run holds a chunk well beyond 64 KiB (readers that treat large chunks differently), cut around every
+        // field boundary of every chunk
+        let huge = ai == 1;
+        let (full, desc, _) = if huge {
+            let mut e = gen::gen_entry(&mut rng, 0);
+            e.kind = gen::Kind::File;
+            e.name = "large.bin".into();
+            e.content = bytes(&mut rng, 100_000);
+            e.writes = vec![100_000];
+            e.link = String::new();
+            let small = gen::gen_entry(&mut rng, 30);
+            let cfg = gen::Cfg::plain();
+            let (b, _) = gen::write_archive(gen::WriterKind::Builder, &cfg, &[small, e]).expect("writer failed");
+            (b, json!({"writer":"Builder","entries":"small + 100000-byte stored file"}), cfg)
+        } else { gen::gen_archive(&mut rng, if big { 5 } else { 2 }, if big { 600 } else { 24 }) };
         let ends = item_ends(&full);
         let full_answers = read_paths(&full);
         let cuts: Vec<usize> = if full.len() <= 420 {
             (0..full.len()).collect()
         } else {
-            let mut c: Vec<usize> = (0..60).map(|_| rng.gen_range(0..full.len())).collect();
+            let mut c: Vec<usize> = (0..if huge { 4 } else { 60 }).map(|_| rng.gen_range(0..full.len())).collect();
             for (o, _, l) in walk(&full) {
-                for d in [o.saturating_sub(1), o, o + 1, o + 4, o + 8, o + 8 + l, o + 11 + l] {
+                let around: Vec<usize> = if huge && l < 60_000 {
+                    vec![o, o + 8, o + 8 + l]
+                } else if huge {
+                    vec![o.saturating_sub(1), o, o + 1, o + 3, o + 4, o + 5, o + 7, o + 8, o + 9, o + 10, o + 11, o + 12, o + 8 + l / 2, (o + 7 + l).max(o + 8), o + 8 + l, o + 9 + l, o + 10 + l, o + 11 + l]
+                } else {
+                    vec![o.saturating_sub(1), o, o + 1, o + 4, o + 8, o + 10, o + 8 + l, o + 11 + l]
+                };
+                for d in around {
                     if d < full.len() { c.push(d); }
                 }
             }
@@ -377,8 +398,10 @@ pub fn truncate(ctx: &mut Ctx) {
                     }
                 }
             }
-            for (name, a) in answers {
-                ctx.case(json!({"archive":ai,"cut":k,"len":full.len(),"path":name}), format!("{} {}", name, hexw(input)), a, k > 8);
+            if input.len() <= 20_000 {
+                for (name, a) in answers {
+                    ctx.case(json!({"archive":ai,"cut":k,"len":full.len(),"path":name}), format!("{} {}", name, hexw(input)), a, k > 8);
+                }
             }
         }
     }
